@@ -38,7 +38,7 @@ TIERS = {
     "quick": {"shards": 8, "budget_s": 28},
     "thorough": {"shards": 16, "budget_s": 300},
 }
-MIN_EVENTS = {"quick": 1500, "thorough": 15000}
+MIN_EVENTS = {"quick": 8000, "thorough": 80000}
 DECIDING = {"estimate", "simulate", "roundtrip", "get_mean", "get_eigenvalues", "get_acov"}
 EXHAUSTIVE = {"quick": False, "thorough": False}
 RULE = (
@@ -413,6 +413,12 @@ def _check_simulate(c, model, snap, raised, result):
         c.inconc("simulate:explosive-path")
         verdict["status"] = "inconclusive"
         return
+    # conditioning certificate: rounding errors are amplified by the powers of the companion matrix along the span
+    amp = max(orc.power_norm(s[0], n, order, snap["len"]) for s in systems)
+    if not amp <= 1e3:
+        c.inconc("simulate:rounding-amplified-by-unstable-dynamics")
+        verdict["status"] = "inconclusive"
+        return
     c.event("simulate", f"order={order}", key=key, nontrivial=_nontrivial(f))
     if raised is not None:
         msg = f"simulate raised {type(raised).__name__}: {raised} (n={n}, order={order}, exog={m}, span length={snap['len']})"
@@ -743,7 +749,17 @@ def _run_case(c, case):
                     model.get_mean(unpack_singleton=False)
                     model.get_acov()
             except Exception as exc:
-                c.violation(f"getters:raised:{type(exc).__name__}", f"{type(exc).__name__}: {exc}")
+                # inside the quantifier only for a finite, clearly stable estimated system
+                try:
+                    ok = all(np.all(np.isfinite(A)) and (cc is None or np.all(np.isfinite(cc))) and np.all(np.isfinite(cov))
+                             and float(np.max(np.abs(orc.eigenvalues(A, case["n"], order)))) < 0.99
+                             for A, B, cc, cov in _systems(model))
+                except Exception:
+                    ok = False
+                if ok:
+                    c.violation(f"getters:raised:{type(exc).__name__}", f"{type(exc).__name__}: {exc} on a finite stable estimated VAR")
+                else:
+                    c.inconc(f"getters:raised-on-nonfinite-or-unstable-system:{type(exc).__name__}")
             # --- re-simulation over every maximal run of fitted periods (and a tail of the first run)
             fi, li = first - start, last - start
             runs = _fitted_runs(case, fi, li)
@@ -780,9 +796,48 @@ _DIRECTED = [
 ]
 
 
+def _run_repo_test(c, case):
+    """the repository's own tests/vars/red_var_test.py (real FRED data, order 2, 100 resampled variants) under the monitors"""
+    import importlib.util
+    import os
+    path = os.path.join("/repo" if not os.path.isdir(os.path.join(rt.REPO, "tests")) else rt.REPO, "tests", "vars", "red_var_test.py")
+    if not os.path.exists(path):
+        c.inconc("repo_test:file-missing")
+        return
+    with c.running(case):
+        with rt.quiet():
+            try:
+                spec = importlib.util.spec_from_file_location("c18_repo_red_var_test", path)
+                mod = importlib.util.module_from_spec(spec)
+                spec.loader.exec_module(mod)
+            except Exception as exc:
+                c.inconc(f"repo_test:import:{type(exc).__name__}")
+                return
+            for name in ("test_plain", "test_minnesota", "test_mean", "test_combined"):
+                fn = getattr(mod, name, None)
+                if fn is None:
+                    continue
+                try:
+                    fn()
+                except Exception as exc:
+                    c.note(f"repo_test:{name}:raised:{type(exc).__name__}")
+
+
 def replay(c, case):
     install()
-    _run_case(c, case)
+    if case.get("kind") == "repo_test":
+        _run_repo_test(c, case)
+    else:
+        _run_case(c, case)
+
+
+def _sample_view(case):
+    view = {k: v for k, v in case.items() if k not in ("Y", "X")}
+    view["Y"] = "%d variant(s) x %d series x %d periods" % (len(case["Y"]), len(case["Y"][0]), len(case["Y"][0][0]))
+    view["Y_variant0_series0_head"] = case["Y"][0][0][:5]
+    if case["m"]:
+        view["X_variant0_series0_head"] = case["X"][0][0][:5]
+    return view
 
 
 def shard(c):
@@ -791,7 +846,9 @@ def shard(c):
     for d in _DIRECTED:
         case = _make_case(rng, d)
         _run_case(c, case)
-    n_cases = c.scale(100000, 1000000)
+    if c.shard == 0:
+        _run_repo_test(c, {"kind": "repo_test"})
+    n_cases = c.scale(1500, 18000)
     for i in range(n_cases):
         if c.out_of_time():
             break
@@ -801,5 +858,4 @@ def shard(c):
         except Exception as exc:
             c.inconc(f"harness:{type(exc).__name__}")
         if i in (0, 5, 11):
-            c.sample({k: (v if k not in ("Y", "X") else "[%d variants x %d series x %d periods]" % (len(v), len(v[0]) if v else 0, len(v[0][0]) if v and v[0] else 0))
-                      for k, v in case.items()} | {"Y_first_rows": [row[:4] for row in case["Y"][0][:2]]})
+            c.sample(_sample_view(case))
